@@ -36,6 +36,20 @@ let c20_logmw args =
         | _ -> failwith "bad request") rs)
   | _ -> failwith "logmw: bad args"
 
+(* logmwlvl: the context logger carries the four request attributes whatever the levels are; the
+   middleware's own "started"/"finished" records appear iff its level reaches the logger's threshold *)
+let c20_logmwlvl args =
+  match args with
+  | [mwl; thr; rq] ->
+    (match String.split_on_char ',' rq with
+     | [meth; host; uri; raddr] ->
+       let inner = if 8 >= int_of_string thr then "inner host=" ^ host ^ " method=" ^ meth ^ " raddr=" ^ raddr ^ " request_uri=" ^ uri
+         else "inner-record-missing" in
+       inner ^ " mw=" ^ (if int_of_string mwl >= int_of_string thr then "2" else "0")
+     | _ -> failwith "logmwlvl: bad request")
+  | _ -> failwith "logmwlvl: bad args"
+
 let () =
+  Registry.register "logmwlvl" c20_logmwlvl;
   Registry.register "wrap" c20_wrap;
   Registry.register "logmw" c20_logmw
